@@ -122,6 +122,58 @@ def election_corpus(tier, seed, calls):
     return EL.add_slow_slice(rng, inputs, 80 if q else 800)
 
 
+def wide_pairwise(res, tier, seed):
+    """margins of 1e-13 .. 1e-16 of a vote, and of one vote among 2^53: Pairwise!Margin, Beats, HasCondorcetWinner and the declarative tiers
+    (a tier is closed under beats-or-ties reachability, tiers ordered by beats) read in exact Python fractions (python_compared)"""
+    from ..common import load_votekit
+    load_votekit()
+    from .. import elections as E
+    from votekit.graphs import PairwiseComparisonGraph
+    E.fast_df(True)
+    rng = random.Random(6161 + seed)
+    n = 0
+    for _ in range(120 if tier == "quick" else 2500):
+        nc = rng.randint(3, 4)
+        cands = D.ABC[:nc]
+        eps = rng.choice([F(1, 10**13), F(1, 10**16), F(1, 3 * 10**12), F(1)])
+        base = F(2**53) if eps == 1 else F(rng.randint(1, 5))
+        ballots = []
+        for _ in range(rng.randint(2, 5)):
+            r = rng.sample(cands, rng.randint(1, nc))
+            ballots.append({"r": [[c] for c in r], "w": rat(base + rng.choice([0, 0, 1, -1, 2]) * eps)})
+        bag = E._abstract_bag(ballots)
+
+        def above(r, a, b):
+            pos = {c: i for i, g in enumerate(r) for c in g}
+            return a in pos and (b not in pos or pos[a] < pos[b])
+        margin = {(a, b): sum((F(*x["w"]) for x in bag if above(x["r"], a, b)), F(0)) - sum((F(*x["w"]) for x in bag if above(x["r"], b, a)), F(0))
+                  for a in cands for b in cands if a != b}
+        want = {k: v for k, v in margin.items() if v >= 0}
+        cw = [a for a in cands if all(margin[(a, b)] > 0 for b in cands if b != a)]
+        n += 1
+        try:
+            with quiet():
+                g = PairwiseComparisonGraph(E.build_profile(cands, ballots))
+                got = {k: F(v) for k, v in g.pairwise_dict.items()}
+                has = bool(g.has_condorcet_winner())
+                tiers = [set(s) for s in g.dominating_tiers()]
+        except Exception as ex:  # noqa
+            res.violation("pairwise:TinyMargins(py):Error", "%s on weights %s" % (type(ex).__name__, [b["w"] for b in ballots]), {"ballots": ballots})
+            continue
+        bad = None
+        if got != want:
+            bad = "Margins"
+        elif has != bool(cw):
+            bad = "HasCondorcetWinner"
+        elif any(not (margin[(a, b)] > 0) for i, s in enumerate(tiers) for t2 in tiers[i + 1:] for a in s for b in t2) or set().union(*tiers) != set(cands):
+            bad = "Tiers"
+        if bad:
+            res.violation("pairwise:TinyMargins(py):%s" % bad, "PairwiseComparisonGraph on margins of %s of a vote: clause %s of the exact-fraction reading of Pairwise.tla"
+                          % (eps, bad), {"cands": cands, "ballots": ballots})
+    res.notes["python_compared"] = n
+    res.notes["python_compared_note"] = "margins of 1e-13..1e-16 of a vote (and of one vote among 2^53) compared with the exact-fraction reading of Pairwise!Margin / Beats / tiers"
+
+
 def run(tier, seed, replay=None):
     res = Result(PID, tier, seed)
     scratch(PID)
@@ -156,6 +208,8 @@ def run(tier, seed, replay=None):
         if not t["hascw"] or any(x[2][0] == 0 for x in t["dict"]):
             res.nontrivial.add(json.dumps(t["bag"]))
     judge_calls(res, PID, "PairwiseTrace", traces, what="PairwiseComparisonGraph disagrees with the definition")
+    if not replay:
+        wide_pairwise(res, tier, seed)
     etr = EL.record_corpus(elects)
     EL.judge(res, PID, etr, os.path.join(OUT, PID, "traces"), nontrivial=None)
     res.notes["calls"] = len(traces)
